@@ -147,6 +147,11 @@ def b1(ctx):
         for cnode in commits:
             c = [c for c in cnode.calls() if (dotted(c.func) or "").endswith("_commit_tree")][0]
             a = c.args[0] if c.args else None
+            if isinstance(a, ast.Name):
+                # the id taken into a local first (`new_tree_id = tree.id`)
+                _os = [o for o in origins(DefUse(cfg), cnode, a)]
+                if len(_os) == 1 and _os[0].kind == "expr" and not _os[0].path and isinstance(_os[0].leaf, ast.Attribute):
+                    a = _os[0].leaf
             tv = dotted(a.value) if isinstance(a, ast.Attribute) else None
             adds = []
             for m in cfg.stmt_nodes():
